@@ -366,6 +366,8 @@ class PropertyCheck:
                              "agreeing": sum(1 for r in self.results if "cross" in r and r["status"] == "unsat")},
             "undecided": [u["obligation"] for u in self.undecided],
             "functions_outside_fragment": self.outside,
+            "trusted_contracts_used_not_verified": sorted(q for q, c in self.reg.contracts.items() if c.trusted),
+            "externals_by_contract": sorted(self.reg.externals),
             "known_findings_reported": self.known_hits,
             "notes": self.notes,
             "phase_seconds": getattr(self, "phase", {}),
